@@ -628,8 +628,11 @@ L_DRAWS = 5
 class World:
     """One run: a script of draws, a log of events."""
 
-    def __init__(self, script, ho=()):
+    def __init__(self, script, ho=(), real=False, raisers=(), unbound=()):
         self.script, self.pos, self.log, self.ho = script, 0, [], frozenset(ho)
+        # real: defined functions / classes and the builtins really run, call arguments are logged;
+        # raisers: names of unknown objects whose operations may raise E; unbound: names whose lookup may raise E
+        self.real, self.raisers, self.unbound = real, frozenset(raisers), frozenset(unbound)
 
     def draw(self):
         if self.pos < len(self.script):
@@ -642,23 +645,51 @@ class World:
         return 0
 
 
+REAL_BUILTINS = {"str", "repr", "len", "hash", "getattr", "hasattr", "int", "float", "bool", "format", "type", "iter",
+                 "list", "tuple", "dict", "set", "frozenset", "sorted", "sum", "range", "object", "isinstance",
+                 "property", "super", "enumerate", "zip", "reversed", "any", "all", "min", "max", "abs", "dir", "vars",
+                 "staticmethod", "classmethod", "Exception", "NotImplementedError", "next", "callable", "id"}
+
+
+def summary(x):
+    """what an observer sees of a call argument"""
+    if x is None or isinstance(x, (bool, int, str)):
+        return repr(x)
+    if isinstance(x, (tuple, list)):
+        return type(x).__name__ + "(" + ",".join(summary(i) for i in x) + ")"
+    name = getattr(type(x), "__name__", "?")
+    if name == "Stub":
+        return "stub:" + object.__getattribute__(x, "_name")
+    if isinstance(x, type) or callable(x) and hasattr(x, "__name__"):
+        return "def:" + getattr(x, "__name__", "?")
+    return "obj:" + name
+
+
 def make_world_classes(w: World):
+    def may_raise(obj):
+        if w.raisers and type(obj).__name__ == "Stub" and object.__getattribute__(obj, "_name") in w.raisers:
+            if w.draw():
+                raise _Stop()
+
     class U:
         def __bool__(self):
             return bool(w.draw())
 
         def __iter__(self):
+            may_raise(self)
             return iter([U() for _ in range(w.draw())])
 
         def __getattr__(self, a):
             if a.startswith("__") and a.endswith("__"):
                 raise AttributeError(a)
+            may_raise(self)
             return M(a)
 
         def __setattr__(self, a, v):
             w.log.append(("storeattr",))
 
         def __getitem__(self, i):
+            may_raise(self)
             return U()
 
         def __setitem__(self, i, v):
@@ -677,6 +708,7 @@ def make_world_classes(w: World):
             return False
 
         def __format__(self, spec):
+            may_raise(self)
             return "u"
 
         def keys(self):
@@ -685,6 +717,7 @@ def make_world_classes(w: World):
         __hash__ = object.__hash__
 
     def _op(self, *a):
+        may_raise(self)
         return U()
 
     for nm in ("add", "radd", "iadd", "sub", "rsub", "lt", "gt", "le", "ge", "eq", "ne", "neg", "pos", "invert",
@@ -704,7 +737,11 @@ def make_world_classes(w: World):
             object.__setattr__(self, "_name", name)
 
         def __call__(self, *a, **k):
-            w.log.append(("call", self._name))
+            if w.real:
+                w.log.append(("call", self._name, tuple(summary(x) for x in a)))
+            else:
+                w.log.append(("call", self._name))
+            may_raise(self)
             if self._name in w.ho:
                 for x in list(a) + list(k.values()):
                     if isinstance(x, Stub):
@@ -724,6 +761,11 @@ def make_world_classes(w: World):
                 return _Stop
             if self.real and k in self.vals:
                 return self.vals[k]
+            if k in w.unbound and w.draw():
+                raise _Stop()            # stands for the NameError of a name that may be unbound
+            if self.real and k in REAL_BUILTINS:
+                import builtins
+                return getattr(builtins, k)
             return self.stubs[k] if k in self.stubs else Stub(k)
 
         def __setitem__(self, k, v):
@@ -737,7 +779,7 @@ def make_world_classes(w: World):
     return U, Stub, Env
 
 
-def explore_src(src, names, ho, real=False):
+def explore_src(src, names, ho, real=False, raisers=(), unbound=()):
     """all behaviours (trace, outcome) over every script of draws in {0,1,2} of length <= L_DRAWS"""
     import warnings
     try:
@@ -746,9 +788,9 @@ def explore_src(src, names, ho, real=False):
             code = compile(src, "<stmt>", "exec")
     except SyntaxError:
         return None
-    w = World([], ho)
+    w = World([], ho, real, raisers, unbound)
     U, Stub, Env = make_world_classes(w)
-    stubs = {n: Stub(n) for n in names}
+    stubs = {n: Stub(n) for n in names if not (real and n in REAL_BUILTINS)}
     seen, stack, runs, partial, errors = set(), [[]], 0, False, 0
     while stack:
         script = stack.pop()
@@ -776,7 +818,7 @@ def explore_src(src, names, ho, real=False):
         except _Stop:
             out = "raise"
         except (TypeError, AttributeError, ValueError, KeyError, IndexError, NameError, RecursionError,
-                AssertionError, ZeroDivisionError):
+                AssertionError, ZeroDivisionError, ImportError):
             partial = True
             errors += 1
             continue
@@ -1201,7 +1243,7 @@ def check_end_to_end(run, mods, wd, rnd, cov):
     return fails
 
 
-def search_failing_input(mods, src):
+def search_failing_input(mods, src, raisers=(), unbound=()):
     """the property's own oracle on one source text: run delete_pointless_statements, execute before / after
     (defined functions really run) under every script; returns a record when the observable behaviours differ"""
     fixes, constants, core = mods["fixes"], mods["constants"], mods["core"]
@@ -1225,7 +1267,8 @@ def search_failing_input(mods, src):
     global L_DRAWS
     saved, L_DRAWS = L_DRAWS, 4
     try:
-        b1, b2 = explore_src(src, names, HO, real=True), explore_src(out, names, HO, real=True)
+        b1 = explore_src(src, names, HO, real=True, raisers=raisers, unbound=unbound)
+        b2 = explore_src(out, names, HO, real=True, raisers=raisers, unbound=unbound)
     finally:
         L_DRAWS = saved
     if b1 is None or b2 is None or not b1[0]:
@@ -1254,6 +1297,119 @@ def check_class_family(run, mods, cov):
         fails.append(r)
     cov.update(class_family_modules=n, class_family_behaviour_changed=n_del, class_family_known=dict(known),
                class_family_failures=len([f for f in fails if not f.get("matched")]))
+    return fails
+
+
+# ---------------------------------------------------------------------------------------------
+# hunt families (round 4): programs in which the statement under test matters for a reason the single-statement
+# contexts above cannot show -- it may raise inside a `try` body, it binds `_` and `_` is read later, its operands
+# are user objects with dunder methods, it iterates an unknown iterable, it instantiates a class with bases, its
+# callee name is shadowed.  Every program goes through delete_pointless_statements and is executed before / after.
+
+TRY_PROBES = ["unicode", "d[k]", "d.attr", "int(s)", "a + b", "-a", "a < b", "f'{a}'", "d[k][j]", "len(d)",
+              "(d[k], 1)", "d[k] if c else 1", "[x for x in d]", "d[k]\n{i}d.attr", "1", "'text'", "pass", "None",
+              "if c:\n{i}    d[k]", "for _ in d:\n{i}    pass", "if c:\n{i}    1\n{i}else:\n{i}    int(s)"]
+TRY_SHAPES = [
+    ("handlers", "try:\n    {p}\nexcept E:\n    handled()\n", "    "),
+    ("handlers_else", "try:\n    {p}\nexcept E:\n    handled()\nelse:\n    fine()\n", "    "),
+    ("handlers_finally", "try:\n    {p}\nexcept E:\n    handled()\nfinally:\n    cleanup()\n", "    "),
+    ("in_function", "def f():\n    try:\n        {p}\n    except E:\n        return handled()\n    return fine()\nf()\n", "        "),
+    ("nested_with", "try:\n    with cm:\n        {p}\nexcept E:\n    handled()\n", "        "),
+    ("nested_try", "try:\n    try:\n        {p}\n    finally:\n        cleanup()\nexcept E:\n    handled()\n", "        "),
+    ("second_statement", "try:\n    start()\n    {p}\nexcept E:\n    handled()\n", "    "),
+    ("loop_in_try", "try:\n    for i in [1, 2]:\n        {p}\nexcept E:\n    handled()\n", "        "),
+]
+TRY_RAISERS = ("d", "s", "a", "b", "int")
+TRY_UNBOUND = ("unicode",)
+
+UNDERSCORE_PROGRAMS = [
+    "_ = gettext.gettext\nuse(_('hi'))\n", "_ = 5\nuse(_)\n", "def _(s):\n    return s\nuse(_('hi'))\n",
+    "for _ in [1, 2]:\n    pass\nuse(_)\n", "_ = {}\n_['a'] = 1\nuse(_['a'])\n", "class _:\n    v = 3\nuse(_.v)\n",
+    "(_ := 7)\nuse(_)\n", "_ = 1\n_ += 1\nuse(_)\n", "def f():\n    global _\n    _ = 1\nf()\nuse(_)\n",
+    "if c:\n    _ = 1\nelse:\n    _ = 2\nuse(_)\n", "_, x = 1, 2\nuse(_, x)\n",
+    "def g():\n    _ = 3\n    return _\nuse(g())\n",
+    # controls: `_` never read
+    "_ = 5\nuse(1)\n", "for _ in [1, 2]:\n    pass\nuse(1)\n", "def _(s):\n    return s\nuse(1)\n",
+]
+CLASS_US_PROGRAMS = [
+    "class Base:\n    def __init_subclass__(cls):\n        print('reg')\nclass _(Base):\n    pass\n",
+    "class Base:\n    def __init_subclass__(cls, **kw):\n        print('reg')\nclass _(Base, flag=True):\n    pass\n",
+    "class Meta(type):\n    def __new__(m, n, b, ns):\n        print('meta')\n        return type.__new__(m, n, b, ns)\nclass _(metaclass=Meta):\n    pass\n",
+    "class _(object):\n    pass\n", "class _:\n    pass\n",
+]
+DUNDER_PRELUDE = ("class T:\n    def __rshift__(self, o):\n        print('rshift')\n    def __neg__(self):\n        print('neg')\n"
+                  "    def __lt__(self, o):\n        print('lt')\n        return True\n    def __getitem__(self, i):\n        print('getitem')\n"
+                  "    def __format__(self, s):\n        print('format')\n        return ''\n    def __bool__(self):\n        print('bool')\n        return True\n"
+                  "    def __str__(self):\n        print('str')\n        return ''\n    def __len__(self):\n        print('len')\n        return 0\n"
+                  "    def __hash__(self):\n        print('hash')\n        return 0\n    def __getattr__(self, n):\n        print('getattr')\n"
+                  "    def __iter__(self):\n        print('iter')\n        return iter(())\n    def keys(self):\n        print('keys')\n        return []\n"
+                  "    @property\n    def p(self):\n        print('prop')\nt = T()\nu = T()\n")
+DUNDER_STATEMENTS = ["t >> u", "-t", "t < u", "t[0]", "f'{t}'", "if t:\n    pass", "t.p", "t.zz", "{**t}", "t and 1", "1 if t else 2",
+                     "not t", "[*t]", "t >> 1", "(t, -t)"]
+BUILTIN_DUNDER_STATEMENTS = ["str(t)", "getattr(t, 'zz')", "len(t)", "hash(t)", "bool(t)", "repr(t)", "format(t)", "hasattr(t, 'q')",
+                             "list(t)", "sorted(t)"]
+ITER_PRELUDE = "def gen():\n    print('advanced')\n    yield 1\nit = gen()\n"
+ITER_STATEMENTS = ["for _ in it:\n    pass", "[x for x in it]", "[*it]", "{x for x in it}", "{x: 1 for x in it}",
+                   "[0 for _ in [1] for y in it]", "[x for x in [1, 2]]", "for _ in range(3):\n    pass", "for _ in [1, 2]:\n    pass",
+                   "[x for x in enumerate(it)]", "for _ in zip(it, [1]):\n    pass", "len([x for x in it])"]
+SHADOW_PROGRAMS = [
+    "class A:\n    def __init__(self):\n        print('hi')\nclass B(A):\n    pass\nB()\n",
+    "class Meta(type):\n    def __call__(cls):\n        print('call')\nclass C(metaclass=Meta):\n    pass\nC()\n",
+    "def cb():\n    return 1\ndef run(cb):\n    cb()\nrun(lambda: print('hi'))\n",
+    "class A:\n    def show(self):\n        return 1\ndef show():\n    print('shown')\nshow()\n",
+    "def f():\n    return 1\ndef g(f=print):\n    f()\ng()\n",
+    "def f():\n    return 1\nwith cm as f:\n    f()\n",
+    "def f():\n    return 1\ntry:\n    pass\nexcept E as f:\n    f()\n",
+    "def f():\n    return 1\nfor f in [print]:\n    f()\n",
+    "def f():\n    return 1\nimport os as f\nf.getcwd()\n",
+    "def f():\n    return 1\nf()\n",
+]
+
+
+def hunt_family():
+    """(tag, hunt item, source, raisers, unbound)"""
+    out = []
+    for tag, shape, ind in TRY_SHAPES:
+        for p in TRY_PROBES:
+            out.append((f"try/{tag}", "C16-3", shape.replace("{p}", p.replace("{i}", ind)), TRY_RAISERS, TRY_UNBOUND))
+    # the same probes where no handler can see the exception: else / finally / handler bodies, plain function
+    for p in TRY_PROBES[:8]:
+        out.append(("try/else_clause", "C16-3", f"try:\n    start()\nexcept E:\n    handled()\nelse:\n    {p}\n", (), ()))
+        out.append(("try/no_handlers", "C16-3", f"try:\n    {p}\nfinally:\n    cleanup()\n", (), ()))
+    for src in UNDERSCORE_PROGRAMS:
+        out.append(("underscore", "C16-4", src, (), ()))
+    for src in CLASS_US_PROGRAMS:
+        out.append(("class_underscore", "C16-5", src, (), ()))
+    for s in DUNDER_STATEMENTS:
+        out.append(("dunder", "C16-6", DUNDER_PRELUDE + s + "\n", (), ()))
+    for s in BUILTIN_DUNDER_STATEMENTS:
+        out.append(("builtin_dunder", "C16-7", DUNDER_PRELUDE + s + "\n", (), ()))
+    for s in ITER_STATEMENTS:
+        out.append(("iteration", "C16-8", ITER_PRELUDE + s + "\n", (), ()))
+    for src in SHADOW_PROGRAMS:
+        out.append(("shadowed", "C01-a-6/7", src, (), ()))
+    return out
+
+
+def check_hunt_family(run, mods, cov):
+    fails, known, n, n_changed = [], Counter(), 0, 0
+    per_tag = Counter()
+    for tag, item, src, raisers, unbound in hunt_family():
+        n += 1
+        r = search_failing_input(mods, src, raisers, unbound)
+        if r is None:
+            continue
+        n_changed += 1
+        per_tag[tag.split("/")[0]] += 1
+        r["family"], r["hunt"] = tag, item
+        if r["sigs"]:
+            for s in r["sigs"]:
+                known[s] += 1
+            r["matched"] = True
+        fails.append(r)
+    cov.update(hunt_family_programs=n, hunt_family_behaviour_changed=n_changed, hunt_family_known=dict(known),
+               hunt_family_changed_by_family=dict(per_tag),
+               hunt_family_failures=len([f for f in fails if not f.get("matched")]))
     return fails
 
 
@@ -1306,6 +1462,7 @@ def check(run, mods, wd, rnd):
     t3 = time.time()
     e2e = check_end_to_end(run, mods, wd, rnd, cov)
     e2e += check_class_family(run, mods, cov)
+    e2e += check_hunt_family(run, mods, cov)
     t4 = time.time()
     cov["stage_wall_s"] = {"hse": round(t1 - t0, 1), "modules": round(t2 - t1, 1), "semantics": round(t3 - t2, 1),
                            "end_to_end": round(t4 - t3, 1)}
